@@ -386,6 +386,55 @@ fn check_parse_at_thread_exit(parsed_before: bool, guard_first: bool) -> Verdict
     }
 }
 
+// ---- very large flat texts, each parsed in a child process -----------------------------------------------------------
+
+const FLAT: [&str; 9] = [
+    "flat-error-line", "flat-string-error", "flat-crlf-comments-error", "flat-list", "flat-list-error", "flat-unicode-escapes",
+    "flat-bad-escape-at-end", "flat-map", "escapes",
+];
+const FLAT_SIZES: [usize; 6] = [1_000, 4_000, 16_500, 66_000, 140_000, 300_000];
+
+const FLAT_CASES: u64 = 9 * 6 * 4 * 2;
+
+/// (construct, size, parse as rule, small stack, child built with the dev profile)
+fn flat_case(i: u64) -> (&'static str, usize, bool, bool, bool) {
+    let c = FLAT[(i % 9) as usize];
+    let r = i / 9;
+    let size = FLAT_SIZES[(r % 6) as usize];
+    let r = r / 6;
+    (c, size, r & 1 == 1, r & 2 == 2, r & 4 == 4)
+}
+
+fn check_flat(i: u64) -> Verdict {
+    use super::c19::{deep_bin_dev, run_child, run_child_bin, ChildResult};
+    let (c, size, as_rule, small, dev) = flat_case(i);
+    let op = if as_rule { "parse-rule" } else { "parse" };
+    let stack = if small { 2usize << 20 } else { 8 << 20 };
+    let outcome = if dev {
+        match deep_bin_dev() {
+            Some(bin) => run_child_bin(&bin, c, size, op, stack),
+            // (not built: ./check builds it for C06; a bare `rvv C06 quick` without it explores the release profile only)
+            None => return Ok(()),
+        }
+    } else {
+        run_child(c, size, op, stack)
+    };
+    let profile = if dev { ":dev-profile" } else { "" };
+    match outcome {
+        ChildResult::Completed | ChildResult::SetupRefused => Ok(()),
+        ChildResult::Panicked => Err(Issue::new(
+            format!("parse:panic:large-input:{c}{profile}"),
+            format!("{op} of the `{c}` text of size {size} (thread stack {} MiB{}) panicked in a child process", stack >> 20, if dev { ", dev profile" } else { "" }),
+        )),
+        ChildResult::Crashed(sig) => Err(Issue::new(
+            format!("parse:abort:large-input:{c}:{}{profile}", if small { "worker2M" } else { "main8M" }),
+            format!("size={size} {op} of the flat (not nested) `{c}` text of size {size} (thread stack {} MiB{}) killed the child process with signal {sig}: neither a tree nor a parse error", stack >> 20, if dev { ", dev profile" } else { "" }),
+        )),
+        // watchdog / spawn problems are not verdicts
+        ChildResult::Watchdog | ChildResult::Other(_) => Ok(()),
+    }
+}
+
 fn rule_wrap(d: &mut Dec, text: String) -> String {
     match d.below(6) {
         0 => format!("// name\n{text}"),
@@ -433,12 +482,39 @@ pub fn run(ctx: &Ctx) {
          position: i, 0x, 0o, 0b, d (with/without point, > 28 fraction digits), f with huge exponents / 400 fraction digits, list \
          indices; (d) every escape form: \\c for all ASCII c, \\u{..} with 0-10 hex digits, surrogates, > 0x10FFFF, unterminated, \
          trailing backslash, backslash-newline; (e) strings of arbitrary Unicode scalars incl. control characters; (f) the above \
-         wrapped as rule texts; (g) blocks of comment lines indented before / after the marker with ASCII and multi-byte white space; (h) parses issued from a thread-local destructor while the thread exits. Oracle: Ok or Err, never a panic; a literal the reference conversion routines classify as denoting no \
+         wrapped as rule texts; (g) blocks of comment lines indented before / after the marker with ASCII and multi-byte white space; (h) parses issued from a thread-local destructor while the thread exits; (i) flat texts of 4 kB - 2 MB (one long line ending in a syntax error, a long string literal, thousands of escapes, CR LF comment blocks, long lists / maps), each parsed in a child process on 8 MiB and 2 MiB stacks, by a release build and by a dev-profile build of the child (no optimisation: every self-call is a real call): the child must exit normally. Oracle: Ok or Err, never a panic; a literal the reference conversion routines classify as denoting no \
          value must be rejected. Non-trivial: the text contains an out-of-range numeral, an escape, a non-ASCII/control character or \
          was mutated from a valid text.",
     );
 
     super::regressions::run(ctx, "C06", replay);
+
+    // texts of 4 kB to 2 MB that are long rather than deep, each in a child process (an abort cannot be caught in-process)
+    ctx.enumerate(
+        "large-flat-texts",
+        FLAT_CASES,
+        true,
+        |i, acc| {
+            let (c, size, _, _, _) = flat_case(i);
+            acc.cell(&format!("flat:{c}"), size >= 16_500);
+            if i % 31 == 0 {
+                acc.sample("flat", || format!("{:?}", flat_case(i)));
+            }
+            // a listed known finding records the largest size that is safe (`safe<=N`): a crash at or below it is a new violation
+            check_flat(i).map_err(|issue| {
+                let safe = ctx
+                    .known
+                    .lookup("C06", &issue.sig)
+                    .and_then(|(_, _, text)| text.split_whitespace().find_map(|w| w.strip_prefix("safe<=").and_then(|x| x.parse::<usize>().ok())));
+                match safe {
+                    Some(n) if flat_case(i).1 <= n => Issue::new(format!("{}:at-or-below-recorded-safe-size", issue.sig), format!("{} (recorded safe size of the known finding: {n})", issue.msg)),
+                    _ => issue,
+                }
+            })
+        },
+        |i| json!({"flat_case": i, "debug": format!("{:?}", flat_case(i))}),
+        "flat",
+    );
 
     // the very last parses of a thread's life: from a thread-local destructor, with and without earlier parses on that thread
     ctx.enumerate(
@@ -557,6 +633,9 @@ pub fn run(ctx: &Ctx) {
 }
 
 pub fn replay(j: &serde_json::Value) -> Option<Verdict> {
+    if let Some(i) = j.get("flat_case").and_then(|x| x.as_u64()) {
+        return (i < FLAT_CASES).then(|| check_flat(i));
+    }
     if let Some(a) = j.get("thread_exit").and_then(|a| a.as_array()) {
         return Some(check_parse_at_thread_exit(a.first()?.as_bool()?, a.get(1)?.as_bool()?));
     }
